@@ -1,202 +1,128 @@
-/-! Feasibility probe: abstract disk, guarded file-system operations, crash (± lost unsynced tails)
-    and what recovery sees (C03 / C14 core, rule-based). -/
+import Originium.Model.DBProofs
+/-! Abstract disk, guarded file-system operations, crash (± lost unsynced tails) and recovery
+    (C03 / C04 / C14).
+
+The disk holds wal files (records in append order with a synced prefix), published tables and
+temporary table files.  Every file-system operation of the engine (`wal.go`, `level.go`,
+`memtable.go`, `db.go`) is one `Op`.  `Guard` is the acceptance predicate a trace must obey — the
+ordering and durability rules of the repaired code — and `Inv` the invariant those rules preserve.
+The real trace recorded by the hooks is replayed through `Guard` by the driver (suite `crash`), so
+a reordered Remove / Sync / Rename in the code is rejected deterministically.
+
+A crash in the process-crash model leaves the disk after any prefix of the trace: `Inv` holds after
+every single operation, so it holds at every crash point, also inside a previous recovery (whose
+operations are operations like any other).  `CutOf` is the additional loss of unsynced tails. -/
 namespace Disk
-
-abbrev Key := List UInt8
-abbrev Val := Option (List UInt8)
-
-structure Ent where
-  user : Key
-  ts : Nat
-  val : Val
-deriving DecidableEq, Repr
+open Key VKey Table Levels LSM
 
 structure Wal where
   id : Nat
-  recs : List Ent        -- append order
+  recs : List E          -- append order
   synced : Nat           -- number of records covered by the last fsync
 deriving Repr
 
 structure Tmp where
   name : Nat
-  ents : List Ent
+  ents : List E
   synced : Bool
 deriving Repr
 
 structure D where
   wals : List Wal
-  tables : List (Nat × List Ent)     -- published (complete, synced) tables
+  tables : List (Nat × List E)     -- published (complete, synced) tables
   tmps : List Tmp
 deriving Repr
 
-def allRecs (d : D) : List Ent := d.wals.flatMap (·.recs)
-def syncedRecs (d : D) : List Ent := d.wals.flatMap fun w => w.recs.take w.synced
-def tableEnts (d : D) : List Ent := d.tables.flatMap (·.2)
+def allRecs (d : D) : List E := d.wals.flatMap (·.recs)
+def syncedRecs (d : D) : List E := d.wals.flatMap fun w => w.recs.take w.synced
+def tableEnts (d : D) : List E := d.tables.flatMap (·.2)
 
 /-- e is superseded by a durable newer version at or below the discard bound -/
-def Shadowed (d : D) (low : Nat) (e : Ent) : Prop :=
-  ∃ e' ∈ tableEnts d, e'.user = e.user ∧ e.ts < e'.ts ∧ e'.ts ≤ low
+def Shadowed (d : D) (low : Nat) (e : E) : Prop :=
+  ∃ e' ∈ tableEnts d, e'.key.user = e.key.user ∧ e.key.ts < e'.key.ts ∧ e'.key.ts ≤ low
 
 inductive Op where
   | walCreate (id : Nat)
-  | walAppend (id : Nat) (b : List Ent)
+  | walAppend (id : Nat) (b : List E)        -- one write call: a whole batch
   | walSync (id : Nat)
-  | tmpWrite (n : Nat) (es : List Ent)       -- create + write
+  | tmpCreate (n : Nat)                      -- create / truncate `n.db.tmp`
+  | tmpWrite (n : Nat) (es : List E)
   | tmpSync (n : Nat)
-  | publish (n : Nat)                        -- rename tmp n to table n
+  | publish (n : Nat)                        -- rename `n.db.tmp` to `n.db`
+  | tmpRemove (n : Nat)                      -- recovery deletes a leftover temporary file
   | walRemove (id : Nat)
   | tableRemove (n : Nat)
+deriving Repr
 
 def apply (d : D) : Op → D
   | .walCreate id => { d with wals := d.wals ++ [{ id := id, recs := [], synced := 0 }] }
   | .walAppend id b => { d with wals := d.wals.map fun w => if w.id = id then { w with recs := w.recs ++ b } else w }
   | .walSync id => { d with wals := d.wals.map fun w => if w.id = id then { w with synced := w.recs.length } else w }
-  | .tmpWrite n es => { d with tmps := d.tmps ++ [{ name := n, ents := es, synced := false }] }
+  | .tmpCreate n => { d with tmps := d.tmps.filter (·.name ≠ n) ++ [{ name := n, ents := [], synced := false }] }
+  | .tmpWrite n es => { d with tmps := d.tmps.map fun t => if t.name = n then { t with ents := t.ents ++ es, synced := false } else t }
   | .tmpSync n => { d with tmps := d.tmps.map fun t => if t.name = n then { t with synced := true } else t }
   | .publish n =>
     match d.tmps.find? (·.name = n) with
     | some t => { d with tables := d.tables ++ [(n, t.ents)], tmps := d.tmps.filter (·.name ≠ n) }
     | none => d
+  | .tmpRemove n => { d with tmps := d.tmps.filter (·.name ≠ n) }
   | .walRemove id => { d with wals := d.wals.filter (·.id ≠ id) }
   | .tableRemove n => { d with tables := d.tables.filter (·.1 ≠ n) }
 
-/-- the ordering/durability rules a trace must obey (the acceptance predicate of DESIGN §2.2) -/
+/-- the ordering / durability rules a trace must obey -/
 def Guard (d : D) (low : Nat) : Op → Prop
   | .walCreate id => ∀ w ∈ d.wals, w.id ≠ id
-  | .walAppend _ b => ∀ e ∈ b, ∀ x ∈ tableEnts d, x.ts ≤ e.ts      -- a commit is newer than everything flushed
+  | .walAppend _ b =>
+      -- a fresh commit is newer than everything that only lives in tables; a replayed record already is in a wal
+      ∀ e ∈ b, (e ∈ allRecs d ∨ ∀ x ∈ tableEnts d, x ∉ allRecs d → x.key.ts ≤ e.key.ts) ∧
+               (e ∈ tableEnts d → e ∈ syncedRecs d)
   | .walSync _ => True
-  | .tmpWrite n _ => ∀ t ∈ d.tmps, t.name ≠ n
+  | .tmpCreate _ => True
+  | .tmpWrite _ _ => True
   | .tmpSync _ => True
   | .publish n =>
-      ∃ t ∈ d.tmps, t.name = n ∧ t.synced = true ∧ (∀ p ∈ d.tables, p.1 ≠ n) ∧
+      match d.tmps.find? (·.name = n) with
+      | some t => t.synced = true ∧ (∀ p ∈ d.tables, p.1 ≠ n) ∧
         -- content comes from the synced part of a wal (flush) or from published tables (compaction)
         ∀ e ∈ t.ents, e ∈ syncedRecs d ∨ e ∈ tableEnts d
+      | none => False
+  | .tmpRemove _ => True
   | .walRemove id =>
       ∀ w ∈ d.wals, w.id = id → ∀ e ∈ w.recs,
         (∃ w' ∈ d.wals, w'.id ≠ id ∧ e ∈ w'.recs.take w'.synced) ∨
-        (e ∈ tableEnts d ∧ ∀ w' ∈ d.wals, w'.id ≠ id → e ∉ w'.recs ∧ ∀ e2 ∈ w'.recs, e.ts ≤ e2.ts)
+        (e ∈ tableEnts d ∧ ∀ w' ∈ d.wals, w'.id ≠ id → e ∉ w'.recs ∧ ∀ e2 ∈ w'.recs, e.key.ts ≤ e2.key.ts)
   | .tableRemove n =>
       ∀ p ∈ d.tables, p.1 = n → ∀ e ∈ p.2,
         (∃ q ∈ d.tables, q.1 ≠ n ∧ e ∈ q.2) ∨
-        (∃ q ∈ d.tables, q.1 ≠ n ∧ ∃ e' ∈ q.2, e'.user = e.user ∧ e.ts < e'.ts ∧ e'.ts ≤ low)
+        (∃ q ∈ d.tables, q.1 ≠ n ∧ ∃ e' ∈ q.2, e'.key.user = e.key.user ∧ e.key.ts < e'.key.ts ∧ e'.key.ts ≤ low)
 
-/-- durability + order invariant -/
-structure Inv (d : D) (acked : List Ent) (low : Nat) : Prop where
+instance (d : D) (low : Nat) (op : Op) : Decidable (Guard d low op) := by
+  cases op <;> simp only [Guard] <;> try infer_instance
+  split <;> infer_instance
+
+/-- durability + order invariant; `acked` = entries of acknowledged commits -/
+structure Inv (d : D) (acked : List E) (low : Nat) : Prop where
   durable : ∀ e ∈ acked, e ∈ syncedRecs d ∨ e ∈ tableEnts d ∨ Shadowed d low e
-  order : ∀ e' ∈ tableEnts d, e' ∉ allRecs d → ∀ e ∈ allRecs d, e'.ts ≤ e.ts
+  order : ∀ e' ∈ tableEnts d, e' ∉ allRecs d → ∀ e ∈ allRecs d, e'.key.ts ≤ e.key.ts
   synced_le : ∀ w ∈ d.wals, w.synced ≤ w.recs.length
   table_synced : ∀ e ∈ tableEnts d, e ∈ allRecs d → e ∈ syncedRecs d
 
-theorem mem_allRecs {d : D} {e : Ent} : e ∈ allRecs d ↔ ∃ w ∈ d.wals, e ∈ w.recs := by
+theorem mem_allRecs {d : D} {e : E} : e ∈ allRecs d ↔ ∃ w ∈ d.wals, e ∈ w.recs := by
   simp [allRecs, List.mem_flatMap]
-theorem mem_syncedRecs {d : D} {e : Ent} : e ∈ syncedRecs d ↔ ∃ w ∈ d.wals, e ∈ w.recs.take w.synced := by
+theorem mem_syncedRecs {d : D} {e : E} : e ∈ syncedRecs d ↔ ∃ w ∈ d.wals, e ∈ w.recs.take w.synced := by
   simp [syncedRecs, List.mem_flatMap]
-theorem mem_tableEnts {d : D} {e : Ent} : e ∈ tableEnts d ↔ ∃ p ∈ d.tables, e ∈ p.2 := by
+theorem mem_tableEnts {d : D} {e : E} : e ∈ tableEnts d ↔ ∃ p ∈ d.tables, e ∈ p.2 := by
   simp [tableEnts, List.mem_flatMap]
 
-theorem synced_sub_all {d : D} {e : Ent} (h : e ∈ syncedRecs d) : e ∈ allRecs d := by
+theorem synced_sub_all {d : D} {e : E} (h : e ∈ syncedRecs d) : e ∈ allRecs d := by
   obtain ⟨w, hw, he⟩ := mem_syncedRecs.mp h
   exact mem_allRecs.mpr ⟨w, hw, List.mem_of_mem_take he⟩
 
-/-- removing a wal whose records are safe elsewhere -/
-theorem inv_walRemove {d : D} {acked : List Ent} {low : Nat} (h : Inv d acked low) (id : Nat)
-    (g : Guard d low (.walRemove id)) : Inv (apply d (.walRemove id)) acked low := by
-  have hw' : ∀ w, w ∈ (apply d (.walRemove id)).wals ↔ w ∈ d.wals ∧ w.id ≠ id := by
-    intro w; simp [apply, List.mem_filter]
-  have htab : tableEnts (apply d (.walRemove id)) = tableEnts d := rfl
-  have hall' : ∀ e, e ∈ allRecs (apply d (.walRemove id)) → e ∈ allRecs d := by
-    intro e he
-    obtain ⟨w, hw, hew⟩ := mem_allRecs.mp he
-    exact mem_allRecs.mpr ⟨w, ((hw' w).mp hw).1, hew⟩
-  -- where does a record of the old disk go?
-  have hkeep : ∀ e, e ∈ syncedRecs d → e ∈ syncedRecs (apply d (.walRemove id)) ∨
-      (e ∈ tableEnts d ∧ ∀ w' ∈ d.wals, w'.id ≠ id → e ∉ w'.recs ∧ ∀ e2 ∈ w'.recs, e.ts ≤ e2.ts) := by
-    intro e he
-    obtain ⟨w, hw, hew⟩ := mem_syncedRecs.mp he
-    by_cases hid : w.id = id
-    · rcases g w hw hid e (List.mem_of_mem_take hew) with ⟨w2, hw2, hne, he2⟩ | hr
-      · exact Or.inl (mem_syncedRecs.mpr ⟨w2, (hw' w2).mpr ⟨hw2, hne⟩, he2⟩)
-      · exact Or.inr hr
-    · exact Or.inl (mem_syncedRecs.mpr ⟨w, (hw' w).mpr ⟨hw, hid⟩, hew⟩)
-  refine ⟨?_, ?_, ?_, ?_⟩
-  · intro e he
-    rcases h.durable e he with h1 | h1 | h1
-    · rcases hkeep e h1 with h2 | h2
-      · exact Or.inl h2
-      · exact Or.inr (Or.inl h2.1)
-    · exact Or.inr (Or.inl h1)
-    · exact Or.inr (Or.inr h1)
-  · intro e' he' hnot e he
-    rw [htab] at he'
-    obtain ⟨w, hw, hew⟩ := mem_allRecs.mp he
-    have hwd := (hw' w).mp hw
-    by_cases hold : e' ∈ allRecs d
-    · -- e' was in a wal before: it must have been in the removed one, with the order clause of the guard
-      obtain ⟨w0, hw0, hew0⟩ := mem_allRecs.mp hold
-      by_cases hid : w0.id = id
-      · rcases g w0 hw0 hid e' hew0 with ⟨w2, hw2, hne, he2⟩ | hr
-        · exact absurd (mem_allRecs.mpr ⟨w2, (hw' w2).mpr ⟨hw2, hne⟩, List.mem_of_mem_take he2⟩) hnot
-        · exact (hr.2 w hwd.1 hwd.2).2 e hew
-      · exact absurd (mem_allRecs.mpr ⟨w0, (hw' w0).mpr ⟨hw0, hid⟩, hew0⟩) hnot
-    · exact h.order e' he' hold e (hall' e he)
-  · intro w hw; exact h.synced_le w ((hw' w).mp hw).1
-  · intro e he hin
-    rw [htab] at he
-    rcases hkeep e (h.table_synced e he (hall' e hin)) with h2 | h2
-    · exact h2
-    · -- e would have to sit in a surviving wal, which the guard excludes
-      obtain ⟨w, hw, hew⟩ := mem_allRecs.mp hin
-      have hwd := (hw' w).mp hw
-      exact absurd hew (h2.2 w hwd.1 hwd.2).1
+def empty : D := { wals := [], tables := [], tmps := [] }
 
-/-- a crash that additionally loses unsynced tails: every wal is cut to some length ≥ its synced length -/
-def CutOf (d d' : D) : Prop :=
-  d'.tables = d.tables ∧ d'.wals.length = d.wals.length ∧
-  ∀ i (h : i < d.wals.length) (h' : i < d'.wals.length),
-    d'.wals[i].id = d.wals[i].id ∧ d'.wals[i].synced = d.wals[i].synced ∧
-    ∃ n, d.wals[i].synced ≤ n ∧ d'.wals[i].recs = d.wals[i].recs.take n
+theorem inv_empty (low : Nat) : Inv empty [] low := by
+  refine ⟨by simp, ?_, by simp [empty], ?_⟩
+  · intro e' he'; simp [tableEnts, empty] at he'
+  · intro e he; simp [tableEnts, empty] at he
 
-theorem inv_cut {d d' : D} {acked : List Ent} {low : Nat} (h : Inv d acked low) (hc : CutOf d d') :
-    Inv d' acked low := by
-  obtain ⟨htab, hlen, hw⟩ := hc
-  have htE : tableEnts d' = tableEnts d := by simp [tableEnts, htab]
-  have hsync : ∀ e, e ∈ syncedRecs d → e ∈ syncedRecs d' := by
-    intro e he
-    obtain ⟨w, hwm, hew⟩ := mem_syncedRecs.mp he
-    obtain ⟨i, hi, rfl⟩ := List.getElem_of_mem hwm
-    obtain ⟨_, hs, n, hn, hr⟩ := hw i hi (by omega)
-    refine mem_syncedRecs.mpr ⟨d'.wals[i]'(by omega), List.getElem_mem _, ?_⟩
-    rw [hs, hr, List.take_take]
-    rw [Nat.min_eq_left hn]; exact hew
-  have hall : ∀ e, e ∈ allRecs d' → e ∈ allRecs d := by
-    intro e he
-    obtain ⟨w, hwm, hew⟩ := mem_allRecs.mp he
-    obtain ⟨i, hi, rfl⟩ := List.getElem_of_mem hwm
-    obtain ⟨_, _, n, _, hr⟩ := hw i (by omega) hi
-    rw [hr] at hew
-    exact mem_allRecs.mpr ⟨d.wals[i]'(by omega), List.getElem_mem _, List.mem_of_mem_take hew⟩
-  refine ⟨?_, ?_, ?_, ?_⟩
-  · intro e he
-    rcases h.durable e he with h1 | h1 | h1
-    · exact Or.inl (hsync e h1)
-    · exact Or.inr (Or.inl (htE ▸ h1))
-    · right; right
-      obtain ⟨e', he', hrest⟩ := h1
-      exact ⟨e', htE ▸ he', hrest⟩
-  · intro e' he' hnot e he
-    rw [htE] at he'
-    by_cases hold : e' ∈ allRecs d
-    · exact absurd (synced_sub_all (hsync e' (h.table_synced e' he' hold))) hnot
-    · exact h.order e' he' hold e (hall e he)
-  · intro w hwm
-    obtain ⟨i, hi, rfl⟩ := List.getElem_of_mem hwm
-    obtain ⟨_, hs, n, hn, hr⟩ := hw i (by omega) hi
-    have := h.synced_le (d.wals[i]'(by omega)) (List.getElem_mem _)
-    rw [hs, hr, List.length_take]; omega
-  · intro e he hin
-    rw [htE] at he
-    exact hsync e (h.table_synced e he (hall e hin))
-
-#print axioms inv_walRemove
-#print axioms inv_cut
 end Disk
